@@ -9,12 +9,13 @@
 (*                                                                         *)
 (* GenSet selects the family:                                              *)
 (*   "cond-quick"     all condition trees of height <= 2 over four core    *)
-(*                    atoms x 2 fixed mixed-family databases x 2 attribute *)
-(*                    selections                                           *)
+(*                    atoms x (database A, all attributes) and (database   *)
+(*                    B, two interfaces, dport only)                       *)
 (*   "cond-thorough"  ... over six core atoms x 3 databases x 4 selections *)
 (*   "pair"           NSeeded seeded databases x a pairwise covering       *)
 (*                    design over (attributes x labels x range class x     *)
-(*                    direction filter); PairwiseOK is checked by TLC      *)
+(*                    direction filter); PairwiseOK is checked by TLC;     *)
+(*                    plus the cases of "z"                                *)
 (*   "full"           the full product for NSeeded seeded databases        *)
 (*   "z"              IPv6 addresses whose bytes 5..16 are zero            *)
 (*                                                                         *)
@@ -87,6 +88,7 @@ UsesSeeded == GenSet \in {"pair", "full"}
 DBNames == CASE GenSet = "cond-quick" -> {"A", "B"}
              [] GenSet = "cond-thorough" -> {"A", "B", "C"}
              [] GenSet = "z" -> {"Z"}
+             [] GenSet = "pair" -> {SName(i) : i \in SeededIdx} \cup {"Z"}
              [] OTHER -> {SName(i) : i \in SeededIdx}
 
 \* ---- queries
@@ -113,8 +115,7 @@ CaseOf(n, q, class) == CaseOfD(n, DBByName(n), q, class)
 WithSel(q, v) == [x \in DOMAIN q \cup {"sel"} |-> IF x = "sel" THEN v ELSE q[x]]
 CondCasesV(t, v) ==
   IF GenSet = "cond-quick"
-  THEN << CaseOf("A", WithSel(Sel1(t, {"e0"}), v), "cond"), CaseOf("A", WithSel(Sel2(t, {"e0"}), v), "cond"),
-          CaseOf("B", WithSel(Sel1(t, {"e0", "e1"}), v), "cond"), CaseOf("B", WithSel(Sel3(t, {"e0", "e1"}), v), "cond") >>
+  THEN << CaseOf("A", WithSel(Sel1(t, {"e0"}), v), "cond"), CaseOf("B", WithSel(Sel2(t, {"e0", "e1"}), v), "cond") >>
   ELSE << CaseOf("A", WithSel(Sel1(t, {"e0"}), v), "cond"), CaseOf("A", WithSel(Sel2(t, {"e0"}), v), "cond"),
           CaseOf("A", WithSel(Sel3(t, {"e0"}), v), "cond"), CaseOf("A", WithSel(Sel4(t, {"e0"}), v), "cond"),
           CaseOf("B", WithSel(Sel1(t, {"e0", "e1"}), v), "cond"), CaseOf("B", WithSel(Sel2(t, {"e0", "e1"}), v), "cond"),
@@ -187,6 +188,7 @@ GenIndex ==
     [] GenSet = "cond-thorough" -> {<<"cond", t>> : t \in H2(Core6) \cup {TrueCond}}
     [] GenSet = "cond-tiny"     -> {<<"cond", t>> : t \in Grow(Core4)}
     [] GenSet = "pair"          -> {<<"pair", i, a, r>> : i \in SeededIdx, a \in 0..15, r \in 0..6}
+                                     \cup {<<"z", k>> : k \in 1..Len(ZConds)}
     [] GenSet = "full"          -> {<<"full", i, a, l, r, d>> : i \in SeededIdx, a \in 0..15, l \in 0..3, r \in 0..6, d \in 0..4}
     [] GenSet = "z"             -> {<<"z", k>> : k \in 1..Len(ZConds)}
 CasesOf(x) ==
